@@ -76,7 +76,7 @@ def main():
         "setup_cmd": "./run setup",
         "hooks": {
             "guard": "cargo feature `verif-hooks` of /repo (off by default). The main seam needs no hook (link-time interposition of libc symbols inside the harness binary); two hooks add scheduling points where an interleaving contains no system call: a stand-in Arc in the unix back end (reference-count operations, commit 24abaec) and a stand-in Mutex in router.rs / asynch.rs (lock acquire and release, commit 56e3b6e); both call ipcsim_sched_point, which the harness defines",
-            "enable": "cargo build --release --offline --features hook in /verif/harness (= ipc-channel/verif-hooks); only the `hook` variants of C03, C07 and C17 and the `asyhook` variant of C20 (features asy + hook) are built this way, every other variant builds /repo unmodified with the feature off",
+            "enable": "cargo build --release --offline --features hook in /verif/harness (= ipc-channel/verif-hooks); only the `hook` variants of C02, C03, C07, C10 and C17 and the `asyhook` variant of C20 (features asy + hook) are built this way, every other variant builds /repo unmodified with the feature off",
             "baseline_off_cmd": "cd /repo && (cargo nextest run --workspace --no-fail-fast --tool-config-file pb:/w/lib/nextest.toml --profile pb --test-threads 8 --offline || cargo test --workspace --no-fail-fast --offline)",
             "source_commits": ["24abaec", "56e3b6e"],
             "add_only": True,
